@@ -54,6 +54,34 @@ class CFG:
         self.blocks = {b["id"]: Block(b, fn) for b in j["blocks"]}
         self.entry = j["entry"]
         self.exit = j["exit"]
+        self.pruned = set()     # ids of the nodes evaluated only in blocks that a constant switch never enters
+        before = None
+        for b in self.blocks.values():
+            # switch (<constant>) - a tag substituted for the parameter of an inlined helper: only the matching case is entered
+            if b.termk == "SwitchStmt" and b.cond is not None and isinstance(b.cond.const_value(), int):
+                cv, match, rest, plain = b.cond.const_value(), None, [], True
+                for k, s in enumerate(b.succs):
+                    lab = self.blocks[s].label if s is not None else None
+                    if lab is not None and lab.k == "CaseStmt":
+                        vals = [c.const_value() for c in lab.children[:-1]]
+                        if len(vals) != 1 or not isinstance(vals[0], int):
+                            plain = False           # a case range or a label that is not understood
+                        elif vals[0] == cv:
+                            match = k
+                    else:
+                        rest.append(k)
+                if plain and (match is not None or len(rest) == 1):
+                    keep = match if match is not None else rest[0]
+                    if before is None:
+                        before = self.reachable(self.entry)
+                    b.succs = [s if k == keep else None for k, s in enumerate(b.succs)]
+        if before is not None:
+            after = self.reachable(self.entry)
+            for bid in before - after:
+                blk = self.blocks[bid]
+                self.pruned.update(n.id for n in blk.elems)
+                if blk.term is not None and blk.term.k in ("BreakStmt", "ContinueStmt", "GotoStmt", "ReturnStmt"):
+                    self.pruned.add(blk.term.id)
         for b in self.blocks.values():
             for s in b.succs:
                 if s is not None:
@@ -345,8 +373,9 @@ class CFG:
         self.feasible_reach(None, lambda lit, b, i: False, lambda a: True, start=start, accept=accept)
         return vals
 
-    def values_at_return(self, ret):
-        """the values a particular `return <variable>` can deliver, over the consistent paths from the entry (None = unknown)"""
+    def values_at_return(self, ret, init_facts=None):
+        """the values a particular `return <variable>` can deliver, over the consistent paths from the entry (None = unknown;
+        ("str", text) for a string literal)"""
         rb = self.block_of(ret)
         vals = set()
         if not ret.children:
@@ -354,13 +383,15 @@ class CFG:
         e = ret.children[0]
         if e.const_value() is not None:
             return {e.const_value()}
+        if e.string_value() is not None:
+            return {("str", e.string_value())} if init_facts is None or self.feasible_reach(rb, lambda lit, b, i: False, lambda a: True, init_facts=init_facts) else set()
         nm = render(e)
 
         def accept(b, fd):
             if b == rb:
                 vals.add(fd.get("=" + nm))
             return False
-        self.feasible_reach(None, lambda lit, b, i: False, lambda a: True, accept=accept)
+        self.feasible_reach(None, lambda lit, b, i: False, lambda a: True, accept=accept, init_facts=init_facts)
         return vals
 
     def success_cut(self, pred):
@@ -440,6 +471,9 @@ class CFG:
                     if cv is not None and track(nm) and n.children[0].strip().k == "DeclRefExpr":
                         fd[nm] = bool(cv)
                         fd["=" + nm] = cv
+                    elif cv is None and track(nm) and n.children[0].strip().k == "DeclRefExpr" and n.children[1].string_value() is not None:
+                        fd[nm] = True             # p = "text": not NULL
+                        fd["=" + nm] = ("str", n.children[1].string_value())
                     elif cv is None and track(nm) and n.children[0].strip().k == "DeclRefExpr":
                         src = render(n.children[1])
                         if src in fd and n.children[1].strip().k == "DeclRefExpr":
@@ -469,6 +503,9 @@ class CFG:
                                 fd.pop(d["name"], None)
                                 fd.pop("=" + d["name"], None)
                                 ini = self.fn.nodes[d["init"]].strip()
+                                if ini.string_value() is not None:
+                                    fd[d["name"]] = True
+                                    fd["=" + d["name"]] = ("str", ini.string_value())
                                 if ini.k == "DeclRefExpr" and render(ini) in fd:
                                     fd[d["name"]] = fd[render(ini)]
                                     if "=" + render(ini) in fd:
@@ -497,8 +534,25 @@ class CFG:
                     cur = prev[cur][0]
                 path.reverse()
                 return path
+            only = None
+            blk9 = self.blocks[b]
+            if blk9.termk == "SwitchStmt" and blk9.cond is not None and isinstance(fd.get("=" + render(blk9.cond)), int):
+                # switch (x) with x known: the matching case (or the way past all cases) is the one way on
+                cv9, match9, rest9, plain9 = fd["=" + render(blk9.cond)], None, [], True
+                for k9, s9 in enumerate(blk9.succs):
+                    lab9 = self.blocks[s9].label if s9 is not None else None
+                    if lab9 is not None and lab9.k == "CaseStmt":
+                        vals9 = [c9.const_value() for c9 in lab9.children[:-1]]
+                        if len(vals9) != 1 or not isinstance(vals9[0], int):
+                            plain9 = False
+                        elif vals9[0] == cv9:
+                            match9 = k9
+                    elif s9 is not None:
+                        rest9.append(k9)
+                if plain9 and (match9 is not None or len(rest9) == 1):
+                    only = match9 if match9 is not None else rest9[0]
             for i, s in enumerate(self.blocks[b].succs):
-                if s is None:
+                if s is None or (only is not None and i != only):
                     continue
                 lit = self.edge_lit(b, i)
                 impl = self.implied_lits(b, i)
